@@ -1,4 +1,4 @@
-//go:build verif
+//go:build verif && go1.18
 
 package fit
 
@@ -116,38 +116,94 @@ func vRecLen(kind int) int {
 	return 9 // lap, activity
 }
 
-// H16b: the unknown lists are sorted. Three arbitrary keys are counted in an
-// arbitrary map order and exported by the real handlers.
+// vKnownPick are known message numbers (two of them >= 256) the counting
+// harness picks from.
+var vKnownPick = [...]MesgNum{MesgNumRecord, MesgNumSession, MesgNumDeviceInfo, MesgNumExdDataFieldConfiguration, MesgNumDiveSettings, MesgNumDiveSummary}
+
+// H16b: counts and order of the unknown lists. n times: a definition of a
+// known message (one of vKnownPick) with one unlisted field (arbitrary
+// number) and a data record of it, then a definition of an unknown message
+// (arbitrary number) and a data record of it, all through the real
+// decodeFileData loop as bytes, with both counting options on and an
+// arbitrary map iteration order. The same key may come up several times
+// (also through a new definition of the same local type). Each exported
+// entry's count equals the number of records that carried its key, every key
+// is listed once, and both lists are sorted.
 func H16b() {
 	var d decoder
-	d.file = new(File)
-	d.unknownFields = make(map[unknownField]int)
-	d.unknownMessages = make(map[MesgNum]int)
+	f, _ := NewFile(FileTypeActivity, NewHeader(V20, true))
+	d.file = f
+	d.opts.unknownFields, d.opts.unknownMessages = true, true
+	vMakeMap(&d.unknownFields)
+	vMakeMap(&d.unknownMessages)
 	vMapOrderSym(true)
 	n := vParam("n")
+	var kg [3]MesgNum
+	var kn [3]byte
+	var ku [3]MesgNum
+	var s []byte
 	for i := 0; i < n; i++ {
-		d.unknownFields[unknownField{MesgNum(vU16()), vByte()}]++
-		d.unknownMessages[MesgNum(vU16())]++
+		g := vKnownPick[vConcretize(vInt(0, len(vKnownPick)-1))]
+		num := vByte()
+		_, found := getField(g, num)
+		vAssume(!found)
+		u := MesgNum(vU16())
+		vAssume(!knownMsgNums[u] && u != MesgNumInvalid)
+		kg[i], kn[i], ku[i] = g, num, u
+		s = append(s, 0x40, 0, 0, byte(g), byte(g>>8), 1, num, 1, 0x0D, 0x00, 0x5A)
+		s = append(s, 0x41, 0, 0, byte(u), byte(u>>8), 0, 0x01)
 	}
+	var buf [64]byte
+	copy(buf[:], s)
+	vFeed(&d, buf[:])
+	d.bytes.limit = len(s)
+	err := d.decodeFileData()
+	vAssert(err == nil && d.bytes.n == len(s), "C16.count.sequence-decodes")
 	d.handleUnknownFields()
 	d.handleUnknownMessages()
 	uf, um := d.file.UnknownFields, d.file.UnknownMessages
-	total := 0
 	for i := range uf {
-		total += uf[i].Count
+		ref := 0
+		for k := 0; k < n; k++ {
+			if kg[k] == uf[i].MesgNum && kn[k] == uf[i].FieldNum {
+				ref++
+			}
+		}
+		vAssert(ref > 0 && uf[i].Count == ref, "C16.fields.count-is-number-of-records")
 		if i > 0 {
 			a, b := uf[i-1], uf[i]
 			vAssert(a.MesgNum < b.MesgNum || (a.MesgNum == b.MesgNum && a.FieldNum < b.FieldNum), "C16.fields.sorted")
 		}
 	}
-	vAssert(total == n && len(uf) == len(d.unknownFields), "C16.fields.counts-preserved")
-	total = 0
+	for k := 0; k < n; k++ {
+		listed := 0
+		for i := range uf {
+			if kg[k] == uf[i].MesgNum && kn[k] == uf[i].FieldNum {
+				listed++
+			}
+		}
+		vAssert(listed == 1, "C16.fields.every-key-listed-once")
+	}
 	for i := range um {
-		total += um[i].Count
+		ref := 0
+		for k := 0; k < n; k++ {
+			if ku[k] == um[i].MesgNum {
+				ref++
+			}
+		}
+		vAssert(ref > 0 && um[i].Count == ref, "C16.messages.count-is-number-of-records")
 		if i > 0 {
 			vAssert(um[i-1].MesgNum < um[i].MesgNum, "C16.messages.sorted")
 		}
 	}
-	vAssert(total == n && len(um) == len(d.unknownMessages), "C16.messages.counts-preserved")
+	for k := 0; k < n; k++ {
+		listed := 0
+		for i := range um {
+			if ku[k] == um[i].MesgNum {
+				listed++
+			}
+		}
+		vAssert(listed == 1, "C16.messages.every-key-listed-once")
+	}
 	vReached("end")
 }
